@@ -12,7 +12,7 @@ RULE = ("conventional files with comment blocks of any length before keys, trail
         "quote; continuation lines with trailing blanks; blank-only lines below an entry) compared with the model; the same files parsed from 8 threads at once (each thread its own files; every thread's provenance must equal the model's for the file alone); results of layered reads whose later files have or have not any entry (path and extended values through the model); econf_getPath for single files (absolute also for relative names) and \"\" for merged results; distinct by bytes")
 
 def gen(rng, tier):
-    n = 1800 if tier == "quick" else 30000
+    n = 1800 if tier == "quick" else 60000
     asts = []
     for _ in range(n):
         dl = rng.choice(grammar.DELIMS); cm = rng.choice(grammar.COMMENTS)
